@@ -144,6 +144,10 @@ def c13(tier, seed):
     secs = 7 if tier == "quick" else 240
     batches = [Batch("nofault", exe, "C13", "nofault", seed, 10**8, secs, W, samples=True, start=0).run(),
                Batch("fault", exe, "C13", "fault", seed, 10**8, secs, W, samples=True, start=0).run()]
+    # systematic small-scope part: every sequence of length <= 4 (quick) / 5 (thorough) over a 21-symbol alphabet
+    small_n = 21 + 21**2 + 21**3 + 21**4 + (21**5 if tier == "thorough" else 0)
+    small = Batch("small-scope", exe, "C13", "small", seed, small_n, 0, W).run()
+    batches.append(small)
     # the other two copies of eav.c are part of C13's anchors: same histories on the adapter builds
     osecs = 3 if tier == "quick" else 90
     for bk in ("idn", "idnkit"):
@@ -158,13 +162,16 @@ def c13(tier, seed):
         batches.append(Batch("extra-fault", exe2, "C13", "fault", seed + 1, 10**8, 120, W, samples=False).run())
     violations, known, nondet = handle_candidates("C13", batches)
     rule = ("plan = seeded history of 1-200 ops {SET_RFC, SET_TLD, SET_ALLOW, SETUP, IS_EMAIL, ERRSTR, READ_RESULT, FREE_INIT} over 1-3 eav_t "
-            "objects and a per-plan address pool (swarm: op mix, pool size, fault rate drawn per plan); distinct = distinct hash of (ops, nobj); "
+            "objects and a per-plan address pool (swarm: op mix, pool size, fault rate drawn per plan), plus the complete enumeration of all op sequences up to length 4 (thorough: 5) "
+            "over a 21-symbol alphabet and a 6-address pool on one object; distinct = distinct hash of (ops, nobj); "
             "non-trivial = executed >=1 state-changing op AND >=1 reused-vs-fresh outcome comparison (AND >=1 fired IDN fault in fault batches)")
     assumptions = ["sampling, not proof: a clean batch is evidence only",
                    "fresh-object oracle: the reference outcome is the library's own answer on a fresh eav_t (differential, no independent e-mail grammar)",
                    "only public API and documented public fields are observed (idnmsg/utf8/initialized are private and not compared)",
                    "libidn2 honours its contract on the no-fault path"]
-    finish("C13", tier, seed, t0, "exploration", batches, det, violations, known, nondet, None, assumptions, rule, build_info)
+    extra = {"small_scope_enumeration": {"alphabet": "SET_RFC{0,1,2,3,99} SETUP SET_TLD{0,1} SET_ALLOW{0,all,generic-only} IS_EMAIL{6 addresses} ERRSTR FREE_INIT IS_EMAIL+fault{2}",
+                                         "symbols": 21, "max_length": 5 if tier == "thorough" else 4, "plans_enumerated": small.done, "complete": small.done >= small_n}}
+    finish("C13", tier, seed, t0, "exploration", batches, det, violations, known, nondet, extra, assumptions, rule, build_info)
     return conclude("C13", violations, known, nondet, det)
 
 
@@ -265,8 +272,11 @@ def c18(tier, seed):
     violations, known, nondet = [], [], []
     batches = []
     lock_info = {}
-    for cfg in ("lockstep", "lockstep-fault"):
-        bs, ncommon, mism = lockstep_compare("C18", seed, cfg, exes, 10**8, secs, W)
+    for cfg in ("corpus", "lockstep", "lockstep-fault"):
+        if cfg == "corpus":
+            bs, ncommon, mism = lockstep_compare("C18", seed, cfg, exes, 470, 0, W)
+        else:
+            bs, ncommon, mism = lockstep_compare("C18", seed, cfg, exes, 10**8, secs, W)
         batches += list(bs.values())
         lock_info[cfg] = {"plans_compared_across_three_backends": ncommon, "mismatching_plans": len(mism)}
         for i in mism[:2]:
@@ -286,7 +296,8 @@ def c18(tier, seed):
     v2, k2, n2 = handle_candidates("C18", batches)
     violations += v2; known += k2; nondet += n2
     rule = ("plan = C13-style seeded history (1-200 ops, 1-3 objects) over IDN-heavy pools; 'lockstep'/'lockstep-fault' plans are executed by all three "
-            "backend builds and their backend-neutral per-op records compared; 'ctxfault' plans run on the idnkit build with idn_resconf_initialize/"
+            "backend builds and their backend-neutral per-op records compared ('corpus' = deterministic sweep of every pool address - all lines of data/*.txt plus generated ones - "
+            "in 4 modes x tld_check off/on through one reused object); 'ctxfault' plans run on the idnkit build with idn_resconf_initialize/"
             "idn_resconf_create failures attached to SETUP ops; every build also runs the fresh-object oracle and the allocation/context ledgers; "
             "distinct = distinct hash of (ops, nobj); non-trivial = >=1 state change and >=1 outcome comparison (and >=1 fired fault in fault batches)")
     extra = {"lockstep": lock_info}
